@@ -251,7 +251,7 @@ func mapDynamoToTypesSliceItem(input []dynamodbtypes.AttributeValue) []*types.It
 func mapDynamoToTypesItem(item dynamodbtypes.AttributeValue) *types.Item {
 	itemB, ok := item.(*dynamodbtypes.AttributeValueMemberB)
 	if ok {
-		return &types.Item{B: itemB.Value}
+		return &types.Item{B: append([]byte{}, itemB.Value...)}
 	}
 
 	itemBOOL, ok := item.(*dynamodbtypes.AttributeValueMemberBOOL)
@@ -539,7 +539,7 @@ func mapTypesToDynamoLocalSecondaryIndexes(input []types.LocalSecondaryIndexDesc
 }
 
 func mapTypesToDynamoItem(item *types.Item) dynamodbtypes.AttributeValue {
-	if len(item.B) != 0 {
+	if item.B != nil {
 		return &dynamodbtypes.AttributeValueMemberB{
 			Value: item.B,
 		}
